@@ -428,7 +428,23 @@ pub fn run_property(cx: &RunCtx, known: &Known) -> Verdict {
     if matches!(cx.prop.as_str(), "C10" | "C14" | "C18") {
         return algebra::run(cx, known);
     }
-    let jobs = jobs_for(&cx.prop, cx.thorough);
+    let mut jobs = jobs_for(&cx.prop, cx.thorough);
+    if cx.thorough {
+        // larger scenarios: one more replica, histories twice as long (a third of the budget each)
+        let big: Vec<Job> = jobs
+            .iter()
+            .filter(|j| !j.cfg.misuse)
+            .map(|j| {
+                let mut b = j.clone();
+                b.cfg.nrep = (j.cfg.nrep + 1).min(5);
+                b.cfg.nsteps = (j.cfg.nsteps * 2).min(56);
+                b.n = (j.n / 3).max(50);
+                b.label = "larger scenario: +1 replica, 2x steps";
+                b
+            })
+            .collect();
+        jobs.extend(big);
+    }
     let mut total = CampStats::default();
     let mut per_job = vec![];
     let active = known.active_for(&cx.prop);
